@@ -5,6 +5,8 @@ from ..loader import AnalysisError, attr_path, src, walk_no_nested_defs, norm_st
 from ..symx import SymX, classify, show, C, TRUE, FALSE, simp, is_const, subst, mentions, UNBOUND
 from . import C02, C09, shared
 
+_SOLVE_NAMES = [("solve",)]
+
 EXPLANATION = (
     "run_games is summarised symbolically (loops as per-iteration update terms, the try/except as a 'raised' "
     "alternative). (1) one record per (game, mode): the mode loop is over the literal [True, False]; unrolling it with "
@@ -31,6 +33,8 @@ DEFAULTS = {"final_strategies": None, "reachability_strategies": None, "rewards"
 
 class Summary:
     def __init__(self, ctx):
+        self.ctx = ctx
+        _SOLVE_NAMES[0] = shared.solve_names(ctx)
         self.f = ctx.func(RUN)
         # options of the batch run (a selectable list of modes, a switch that only validates, ...) are judged at their defaults:
         # the property describes the plain batch run
@@ -352,6 +356,8 @@ def scenario(s, t, flag_value, raised):
     # re-simplify conditionals that became constant
     for _ in range(3):
         out = subst(out, lambda x: (x[2] if x[1] == TRUE or (is_const(x[1]) and x[1][1] is True) else x[3]) if x[0] == "ite" and is_const(x[1]) else None)
+    if getattr(s, "ctx", None) is not None:
+        out = shared.as_solve(s.ctx, out)
     return out
 
 
@@ -374,7 +380,7 @@ def _msg_term(s):
 
 
 def _solve_calls(t):
-    return [x for x in C02._sub(t) if x[0] == "mcall" and x[2] == "solve"]
+    return [x for x in C02._sub(t) if x[0] == "mcall" and x[2] in _SOLVE_NAMES[0]]
 
 
 def r4_failure_protocol(ctx, chk, rule="C12.4"):
@@ -390,6 +396,10 @@ def r4_failure_protocol(ctx, chk, rule="C12.4"):
         chk.undecided(rule, f.where(Lo.node), "had-solution flag / single try statement not identified (flag=%s, tries=%d)" % (flag, len(getattr(s.sx, "tries", {}))))
         return
     good, bad = flag_states(s)
+    after_ = scenario(s, Li.update[flag], good, True)
+    if bad is None and mentions(after_, lambda x: x[0] in ("res", "apply", "compr") or (x[0] == "acc" and x[1] != Li.id)):
+        chk.undecided(rule, f.where(Li.node), "the flag `%s` after a raising solve is `%s`: it comes out of a nested loop / helper that is not resolved" % (flag, show(after_)[:100]))
+        return
     if bad is None or bad == good:
         chk.violation(rule, f.where(Li.node), "after a raising solve the flag `%s` is `%s` (unchanged / not a constant): the unpruned entry is not marked 'not solved'" % (
             flag, show(scenario(s, Li.update[flag], good, True))), expected="flag flips when the solve raised", found=show(Li.update[flag])[:140], construct="run_games flag update")
@@ -439,14 +449,19 @@ def r4_failure_protocol(ctx, chk, rule="C12.4"):
 def _batch_runner(ctx, chk, rule):
     """C09.5 on run_games or on the helper that contains the solve() call."""
     f = ctx.func(RUN)
-    if C02.calls_of(f, "solve"):
+    if shared.solve_calls_in(ctx, f):
         C09.r5_batch_runner(ctx, chk, rule)
         return
     for g in ctx.cg.reachable([f]):
-        if g is not f and g.mod is f.mod and C02.calls_of(g, "solve"):
+        if g is not f and g.mod is f.mod and shared.solve_calls_in(ctx, g):
             C09.r5_batch_runner(ctx, chk, rule, holder=g)
             return
     chk.undecided(rule, f.where(), "no solve() call reachable from run_games inside conditionalrewards.py")
+
+
+def _from_nested(t, Li):
+    """The value comes out of a loop nested in the mode loop (runs repeated for timing, retries): not resolved here."""
+    return mentions(t, lambda x: x[0] == "res" or (x[0] == "acc" and x[1] != Li.id))
 
 
 def _unresolved_container(t):
@@ -497,7 +512,7 @@ def r5_record(ctx, chk, rec_t, rule="C12.5"):
         vA, vB, vC = scenario(s, v, good, False), scenario(s, v, good, True), scenario(s, v, bad if bad is not None else (not good), None)
         want_d = DEFAULTS[key]
         okA = vA[0] == "idx" and vA[1][0] == "mcall" and vA[1][2] == "solve"
-        if not okA and _unresolved_container(vA):
+        if not okA and (_unresolved_container(vA) or (_solve_calls(vA) and not (vA[0] == "idx" and vA[1][0] == "mcall"))):
             chk.undecided(rule, f.where(Li.node), "record[%r] when solved is `%s`: the entry goes through a container operation that is not resolved" % (key, show(vA)[:100]))
             continue
         if not okA:
@@ -524,14 +539,14 @@ def r5_record(ctx, chk, rec_t, rule="C12.5"):
     nt = rec.get("n_transitions")
     if go is not None and ns == ("attr", go, "num_states"):
         chk.ok(rule, f.where(Li.node), "record['n_states'] = num_states of this iteration's game object")
-    elif ns is not None and _unresolved_container(ns):
+    elif ns is not None and (_unresolved_container(ns) or _from_nested(ns, Li)):
         chk.undecided(rule, f.where(Li.node), "record['n_states'] = `%s`: goes through a container operation that is not resolved" % show(ns)[:80])
     else:
         chk.violation(rule, f.where(Li.node), "record['n_states'] = `%s`" % (show(ns)[:80] if ns else None), expected="sgame.num_states", found=show(ns)[:100] if ns else "missing",
                       construct="run_games record n_states")
     if go is not None and nt == ("mcall", go, "count_transitions", (), ()):
         chk.ok(rule, f.where(Li.node), "record['n_transitions'] = count_transitions() of this iteration's game object")
-    elif nt is not None and _unresolved_container(nt):
+    elif nt is not None and (_unresolved_container(nt) or _from_nested(nt, Li)):
         chk.undecided(rule, f.where(Li.node), "record['n_transitions'] = `%s`: goes through a container operation that is not resolved" % show(nt)[:80])
     else:
         chk.violation(rule, f.where(Li.node), "record['n_transitions'] = `%s`" % (show(nt)[:80] if nt else None), expected="sgame.count_transitions()", found=show(nt)[:100] if nt else "missing",
@@ -546,7 +561,10 @@ def r5_record(ctx, chk, rec_t, rule="C12.5"):
         ksolve = ctx.cache["solve_kernel"] = Kernel(ctx, "tad.py::StochasticGame.solve", "StochasticGame")
     sxs = ksolve.sx
     ret = sxs.ret
-    if ret[0] != "tup" or len(ret[1]) != 8:
+    if ret[0] != "tup":
+        chk.undecided(rule, solve.where(), "solve() returns `%s`: not resolved to a tuple display" % show(ret)[:80])
+        return
+    if len(ret[1]) != 8:
         chk.violation(rule, solve.where(), "solve() returns %s values; the batch runner unpacks 8" % (len(ret[1]) if ret[0] == "tup" else "a non-tuple"), expected=8,
                       found=show(ret)[:80], construct="solve() arity")
         return
